@@ -60,6 +60,9 @@ def evaluate_matched_instance(
         ):
             for k, v in metric_dict.items():
                 score_dict[k].append(v)
+        else:
+            # matched, but below the decision threshold: not a true positive
+            tp -= 1
 
     # Create and return the PanopticaResult object with computed metrics
     return EvaluateInstancePair(
